@@ -115,7 +115,7 @@ theorem findLabel_lt {t : Target} {P : List Instr} {i : Nat} (h : findLabel t P 
 
 /-- the body of the looped program for `iterations ≥ 2` -/
 def wrapBody (body : List Instr) (c : MemRef) (t : Target) (n : Nat) : List Instr :=
-  [.move c (Int.ofNat n), .label t] ++ body ++ [.sub { name := c.name, index := 0 } 1, .jumpWhen t c]
+  [.move c (Int.ofNat n), .label t] ++ body ++ [.sub c 1, .jumpWhen t c]
 
 theorem wrapBody_length (body : List Instr) (c : MemRef) (t : Target) (n : Nat) :
     (wrapBody body c t n).length = body.length + 4 := by
